@@ -4,6 +4,72 @@
 
 using namespace vf;
 
+// Between two updates of the same graph: new base levels and/or a new mask (base levels stay
+// unmasked and non-empty), returns a description of what was changed.
+static std::string mutate_settings(vg::Src& s, FlowCase& fc, va::IGraph& g, bool every_component)
+{
+    std::string what;
+    size_t n = fc.m.n;
+    size_t kind = s.weighted({ 100, 80, 40, 36 });  // nothing, base levels, mask, both
+    if (kind == 2 || kind == 3)
+    {
+        auto mk = vg::gen_mask(s, fc.m);
+        if (mk.empty())
+            mk.assign(n, 0);
+        fc.mask = mk;
+        g.set_mask(mk);
+        what += " set_mask(" + vg::describe_mask(mk) + ")";
+    }
+    bool need_bl = kind == 1 || kind == 3;
+    for (auto b : fc.bl)
+        if (fc.masked(b))
+            need_bl = true;
+    if (need_bl)
+    {
+        vg::BaseInfo bi;
+        std::vector<size_t> nbl;
+        if (kind == 1 && s.coin() && fc.bl.size() < n)
+        {
+            // same number of base levels at other nodes (a cached size would not notice)
+            std::vector<size_t> cand;
+            for (size_t i = 0; i < n; ++i)
+                if (!fc.masked(i) && !fc.isbase[i])
+                    cand.push_back(i);
+            nbl.clear();
+            for (size_t k = 0; k < fc.bl.size() && !cand.empty(); ++k)
+            {
+                size_t j = s.range(0, cand.size() - 1);
+                nbl.push_back(cand[j]);
+                cand.erase(cand.begin() + static_cast<long>(j));
+            }
+            std::sort(nbl.begin(), nbl.end());
+            if (nbl.empty())
+                nbl = vg::gen_base_levels(s, fc.m, fc.mask, every_component, &bi);
+            else if (every_component)
+            {
+                auto reach = vg::reach_from(fc.m, fc.mask, nbl);
+                for (size_t i = 0; i < n; ++i)
+                    if (!fc.masked(i) && !reach[i])
+                    {
+                        nbl.push_back(i);
+                        reach = vg::reach_from(fc.m, fc.mask, nbl);
+                    }
+                std::sort(nbl.begin(), nbl.end());
+            }
+        }
+        else
+            nbl = vg::gen_base_levels(s, fc.m, fc.mask, every_component, &bi);
+        fc.bl = nbl;
+        fc.bi.is_explicit = true;
+        g.set_base_levels(nbl);
+        what += " set_base_levels(" + vg::describe_set(nbl) + ")";
+    }
+    finish_case(fc);
+    return what;
+}
+
+static bool check_single_routing(vh::Ctx& c, const FlowCase& fc, const GraphState& st, const std::string& tag);
+
 static void check_case(vg::Src& s, vh::Ctx& c)
 {
     FlowOpts o;
@@ -11,20 +77,43 @@ static void check_case(vg::Src& s, vh::Ctx& c)
     FlowCase fc = gen_flow_case(s, o);
     int threads = thread_choice(s, true);
     std::vector<OpSpec> ops = { vg::op_single(threads, threads == 0 && s.coin()) };
+    size_t rounds = s.weighted({ 150, 70, 36 }) + 1;  // 1-3 updates on the same graph
     c.desc = fc.describe() + " ops=" + vg::describe(ops);
     c.announce();
     label_case(c, fc);
     c.label("threads=" + std::to_string(threads));
+    c.label("rounds=" + std::to_string(rounds));
     Built b = build(fc, ops, c);
-    auto res = b.graph->update_routes(fc.z);
-    c.expect(res.same_object, "returned-object", "a router-only graph must return the caller's array");
-    GraphState st = b.graph->state();
+    bool nt = false;
+    for (size_t round = 0; round < rounds; ++round)
+    {
+        std::string tag = "update#" + std::to_string(round + 1) + ": ";
+        if (round > 0)
+        {
+            std::string what = mutate_settings(s, fc, *b.graph, false);
+            if (s.chance(200))
+                fc.z = vg::gen_field(s, fc.m);
+            c.desc += " |" + what + " update(z=" + vg::describe_field(fc.z, 0) + ")";
+            if (c.verbose)
+                std::cout << "STEP" << what << " update(z=" << vg::describe_field(fc.z, 0) << ")" << std::endl;
+        }
+        auto res = b.graph->update_routes(fc.z);
+        c.expect(res.same_object, "returned-object", "a router-only graph must return the caller's array");
+        GraphState st = b.graph->state();
+        if (check_single_routing(c, fc, st, tag))
+            nt = true;
+    }
+    c.nontrivial = nt;
+}
+
+static bool check_single_routing(vh::Ctx& c, const FlowCase& fc, const GraphState& st, const std::string& tag)
+{
     size_t n = fc.m.n;
     check_wellformed(c, st, n);
     bool interesting = false;
     for (size_t i = 0; i < n; ++i)
     {
-        std::string at = "node " + std::to_string(i) + " (z=" + vg::fmt(fc.z[i]) + ")";
+        std::string at = tag + "node " + std::to_string(i) + " (z=" + vg::fmt(fc.z[i]) + ")";
         c.expect(st.rec_count[i] == 1, "count", at + ": receivers_count " + std::to_string(st.rec_count[i]));
         size_t r = R(st, i, 0);
         c.expect(W(st, i, 0) == 1.0, "weight", at + ": weight " + vg::fmt(W(st, i, 0)));
@@ -76,5 +165,5 @@ static void check_case(vg::Src& s, vh::Ctx& c)
         if (!(got >= best * (1 - 1e-14L)))
             c.fail("not-steepest", at + ": receiver " + std::to_string(r) + " has slope " + vg::fmt(static_cast<double>(got)) + " but the steepest descent is " + vg::fmt(static_cast<double>(best)));
     }
-    c.nontrivial = interesting;
+    return interesting;
 }
